@@ -224,7 +224,9 @@ func (b *ReadWrite) PutMany(ctx context.Context, blks []blocks.Block) error {
 		if err := util.LdWrite(b.dataWriter, c.Bytes(), bl.RawData()); err != nil {
 			// Drop whatever part of the section was written, so that it neither precedes the
 			// next section nor is left behind at the end of the file.
-			if _, serr := b.dataWriter.Seek(int64(n), io.SeekStart); serr == nil {
+			if uint64(b.dataWriter.Position()) == n {
+				// Nothing was written.
+			} else if _, serr := b.dataWriter.Seek(int64(n), io.SeekStart); serr == nil {
 				end := int64(n)
 				if !b.opts.WriteAsCarV1 {
 					end += int64(b.header.DataOffset)
